@@ -679,6 +679,19 @@ func knownPredicates() map[string]func(*fw.Violation) bool {
 			sps, w, ok := parseCase(v.Case)
 			return ok && strings.Contains(v.Case, "Stroke(") && minCurvatureRadius(sps) < w/2
 		},
+		// S1: an open path with a straight segment shorter than w/2 next to a bend
+		"open-segment-shorter-than-half-width": func(v *fw.Violation) bool {
+			sps, w, ok := parseCase(v.Case)
+			if !ok || !strings.Contains(v.Case, "Stroke(") || len(sps) != 1 || sps[0].Closed || len(sps[0].Segs) < 2 {
+				return false
+			}
+			for _, s := range sps[0].Segs {
+				if s.P0.Dist(s.P1) < w/2 {
+					return true
+				}
+			}
+			return false
+		},
 		// S4: Offset of a clockwise contour made of arcs only: CCW() misreports the orientation
 		"clockwise-all-arc-contour": func(v *fw.Violation) bool {
 			sps, _, ok := parseCase(v.Case)
